@@ -519,6 +519,56 @@ def gen_c02(wntr):
     return "\n".join(out) + "\n", dict(hist=info, hw=hw, pc=pc, tol=tol, spl=spl, names=znames, lit=lit)
 
 
+def gen_updater(wntr):
+    """which (attribute -> Definition class) pairs `create_hydraulic_model` REALLY registers with the ModelUpdater for every
+    link / junction / tank of the zoo (recorded at run time from `model_updater.update_functions`, so a registration moved
+    into a helper is still seen and a dropped one is missed) -> Gen/UpdaterC02.lean"""
+    out = [
+        "-- GENERATED by harness/translate/rows_c01c02.py (ModelUpdater registrations recorded while create_hydraulic_model builds the zoo). Do not edit.",
+        "import WntrModel.Model.LinkRows",
+        "namespace Wntr.Gen.UpdaterC02",
+        "open Wntr.LinkRows",
+        "",
+    ]
+    info = {}
+    for mode, approx in (("DD", "default"), ("PDD", "piecewise")):
+        wn = build_zoo(wntr, mode)
+        m, upd = wntr.sim.hydraulics.create_hydraulic_model(wn, HW_approx=approx)
+        regs = {}
+        for (obj, attr), funcs in upd.update_functions.items():
+            for f in funcs:
+                cls = getattr(getattr(f, "__self__", None), "__name__", None)
+                if cls is None:
+                    raise BrokenTie("ModelUpdater holds an update function that is not a Definition classmethod: %r" % (f,))
+                regs.setdefault(obj.name, []).append((attr, cls))
+        ns = mode
+        out.append("namespace %s" % ns)
+        out.append("/-- (link name, kind, registered (attribute, Definition class) pairs) -/")
+        out.append("def linkRegs : List (String × LinkKind × List (String × String)) := [")
+        ents = []
+        for ln, link in wn.links():
+            pairs = ", ".join("(%s, %s)" % (lean_str(a), lean_str(c)) for a, c in sorted(set(regs.get(ln, []))))
+            ents.append("  (%s, .%s, [%s])" % (lean_str(ln), link_kind(link), pairs))
+        out.append(",\n".join(ents))
+        out.append("]")
+        for nm, it in (("junctionRegs", wn.junction_name_list), ("tankRegs", wn.tank_name_list)):
+            out.append("def %s : List (String × List (String × String)) := [" % nm)
+            out.append(",\n".join("  (%s, [%s])" % (lean_str(n), ", ".join("(%s, %s)" % (lean_str(a), lean_str(c)) for a, c in sorted(set(regs.get(n, [])))))
+                                  for n in it))
+            out.append("]")
+        out.append("end %s" % ns)
+        out.append("")
+        info[mode] = sum(len(v) for v in regs.values())
+    out.append("end Wntr.Gen.UpdaterC02")
+    return "\n".join(out) + "\n", info
+
+
+def write_updater(wntr):
+    t, i = gen_updater(wntr)
+    vlib.write_if_changed(os.path.join(vlib.GEN, "UpdaterC02.lean"), t)
+    return i
+
+
 def write_c01(wntr):
     t1, i1 = gen_c01(wntr)
     vlib.write_if_changed(os.path.join(vlib.GEN, "RowsC01.lean"), t1)
@@ -533,10 +583,11 @@ def write_c02(wntr):
 
 def run(ctx=None):
     wntr = vlib.import_wntr()
-    return write_c01(wntr), write_c02(wntr)
+    return write_c01(wntr), write_c02(wntr), write_updater(wntr)
 
 
 if __name__ == "__main__":
-    i1, i2 = run()
+    i1, i2, i3 = run()
     print(i1)
     print(i2["hist"])
+    print(i3)
